@@ -47,10 +47,14 @@ ProjOK(r, o) ==
   /\ Chk("centroid-bound", o.inf \/ Len(r.cent) <= r.cap)
   /\ Chk("buffer", Srt(r.buf) = Srt(o.buf))
   /\ Chk("weight-sum", r.total = SumW(r.cent) + Len(r.buf))
-\* an image of a single value does not say whether the value was buffered: both forms are the same sketch
+\* an image of a single value does not say whether the value was buffered: at that moment both forms are the same sketch
+\* (same items, same answers), so a restored object may show either
 Norm(o) == IF o.total = 1 THEN [o EXCEPT !.cent = <<[m |-> o.minD, w |-> 1]>>, !.buf = <<>>] ELSE o
+\* logical content: configuration, weight, extremes and the multiset of retained (mean, weight) items - NOT whether a
+\* weight-1 item currently sits in the buffer or in the centroid list
+Content(o) == SortSeq(Items(o), LAMBDA x, y : x.m < y.m \/ (x.m = y.m /\ x.w < y.w))
 Same(a, b) == /\ a.k = b.k /\ a.total = b.total /\ a.minD = b.minD /\ a.maxD = b.maxD
-              /\ a.cent = b.cent /\ Srt(a.buf) = Srt(b.buf)
+              /\ Content(a) = Content(b)
 
 \* side effect of an observer: compressed to the logged centroid list, or nothing
 SideEffect(i, e) == IF Comp(e) THEN CompChk(obj[i], Items(obj[i]), e.cent) /\ Compress(i, e.cent)
@@ -139,15 +143,16 @@ TSer == IsEvent("Ser") /\ LET e == Log[l] IN
             /\ Chk("C09:buffer-kept", e.wb \/ Len(obj'[e.src].buf) = 0)
             /\ blob' = (e.blob :> [st |-> obj'[e.src], img |-> e.img, size |-> e.size]) @@ blob
             /\ UNCHANGED <<cst, stat>>
-TDeser == IsEvent("Deser") /\ LET e == Log[l]  b == blob[e.blob] IN
-            /\ ProjOK(e.r, Norm(b.st))
+TDeser == IsEvent("Deser") /\ LET e == Log[l]  b == blob[e.blob]
+                                  st == IF b.st.total = 1 /\ e.r.nb = 0 THEN Norm(b.st) ELSE b.st IN
+            /\ ProjOK(e.r, st)
             /\ Chk("C09:consumed", e.consumed = b.size)
             /\ Chk("C09:reserialize", e.reimg = b.img)
-            /\ obj' = (e.dst :> Norm(b.st)) @@ obj
+            /\ obj' = (e.dst :> st) @@ obj
             /\ UNCHANGED <<blob, cst, stat>>
 \* the same operations were applied to an original and to the sketch restored from its image: still the same sketch
 TTwin == IsEvent("Twin") /\ LET e == Log[l] IN
-            /\ Chk("C09:lockstep", Same(Norm(obj[e.a]), Norm(obj[e.b])))
+            /\ Chk("C09:lockstep", Same(obj[e.a], obj[e.b]))
             /\ UNCHANGED <<obj, blob, cst, stat>>
 \* an image in one of the two formats of the reference implementation (read-only input); src = its content
 \* decoded by the harness from the documented big-endian layout
